@@ -26,12 +26,12 @@ pub mod verif {
 }
 
 use include_logic::FileStack;
-use program_structure::ast::{Version, AST};
+use program_structure::ast::{Definition, Version, AST};
 use program_structure::report::{Report, ReportCollection};
 use program_structure::file_definition::{FileID, FileLibrary};
 use program_structure::program_archive::ProgramArchive;
 use program_structure::template_library::TemplateLibrary;
-use std::collections::HashMap;
+use std::collections::{HashMap, HashSet};
 use std::path::{Path, PathBuf};
 
 /// A result from the Circom parser.
@@ -92,11 +92,13 @@ pub fn parse_files(
         }
         [] => {
             // TODO: Maybe use a flag to ensure that a main component must be present.
+            report_duplicate_definitions(&definitions, &mut reports);
             let template_library = TemplateLibrary::new(definitions, file_library);
             ParseResult::Library(Box::new(template_library), reports)
         }
         _ => {
             reports.push(errors::MultipleMainError::produce_report());
+            report_duplicate_definitions(&definitions, &mut reports);
             let template_library = TemplateLibrary::new(definitions, file_library);
             ParseResult::Library(Box::new(template_library), reports)
         }
@@ -137,6 +139,35 @@ pub fn parse_files(
         }
     }
     result
+}
+
+/// A template library keeps a single definition for each name. This function
+/// reports all other definitions with the same name, since they are dropped.
+fn report_duplicate_definitions(
+    definitions: &HashMap<FileID, Vec<Definition>>,
+    reports: &mut ReportCollection,
+) {
+    let mut file_ids = definitions.keys().copied().collect::<Vec<_>>();
+    file_ids.sort_unstable();
+    let mut names = HashSet::new();
+    for file_id in file_ids {
+        for definition in &definitions[&file_id] {
+            let (name, meta) = match definition {
+                Definition::Template { name, meta, .. }
+                | Definition::Function { name, meta, .. } => (name, meta),
+            };
+            if !names.insert(name.clone()) {
+                reports.push(
+                    errors::DuplicateDefinitionError {
+                        name: name.clone(),
+                        file_id,
+                        file_location: meta.file_location(),
+                    }
+                    .into_report(),
+                );
+            }
+        }
+    }
 }
 
 pub fn parse_file(
